@@ -217,7 +217,9 @@ func check(c Case, r *vh.R) {
 			r.Failf("write-error", "Write failed: %v", err)
 			return
 		}
-		pe, err := signedexchange.ReadExchange(gen.Source(buf.Bytes(), gen.SourceModeOf(buf.Bytes())))
+		psrc := gen.Source(buf.Bytes(), gen.SourceModeOf(buf.Bytes()))
+		pe, err := signedexchange.ReadExchange(psrc)
+		gen.Recycle(psrc)
 		if err != nil {
 			r.Failf("read-error", "ReadExchange rejects the library's own output: %v", err)
 			return
@@ -257,7 +259,9 @@ func check(c Case, r *vh.R) {
 		case "ser-setbyte":
 			mut[off] = m.Byte
 		}
-		e2, err := signedexchange.ReadExchange(gen.Source(mut, gen.SourceModeOf(mut)))
+		msrc := gen.Source(mut, gen.SourceModeOf(mut))
+		e2, err := signedexchange.ReadExchange(msrc)
+		gen.Recycle(msrc)
 		if err != nil {
 			rejectedAtRead = true
 		} else {
